@@ -48,6 +48,8 @@ func shape(name string, tag int) []byte {
 		return pattern(limit)
 	case "limit+1":
 		return pattern(limit + 1)
+	case "1MiB":
+		return pattern(1 << 20)
 	}
 	panic("shape " + name)
 }
@@ -321,7 +323,7 @@ func trunc(b []byte) string {
 func init() {
 	hx.Register(&hx.Property{ID: "C01", Scenarios: func(tier string) []hx.Scenario {
 		shapesQ := []string{"empty", "nul", "a", "badutf8", "64k", "limit"}
-		shapesT := []string{"empty", "nul", "a", "badutf8", "64k", "limit-1", "limit", "limit+1"}
+		shapesT := []string{"empty", "nul", "a", "badutf8", "64k", "limit-1", "limit", "1MiB"}
 		shapes := shapesQ
 		if tier == "thorough" {
 			shapes = shapesT
